@@ -138,6 +138,9 @@ func normNumbers(v any) any {
 
 func scaleCheck(c *fw.Ctx, f *scaleFam, n int) *fw.Violation {
 	sc := f.Build(n)
+	if c.Prop.ID == "C01" {
+		return scaleCrash(c, f, n, sc)
+	}
 	kind := sc.Kind
 	if kind == "" {
 		kind = drive.KNone
@@ -263,10 +266,36 @@ func scaleCLI(c *fw.Ctx, f *scaleFam, n int, sc scaleCase, kind drive.ErrKind) *
 	return &fw.Violation{What: fmt.Sprintf("%s, n = %d: %s", f.Name, n, what), Detail: map[string]any{"program": clip(sc.Prog), "argv": len(argv), "want": clip(want), "stdout": clip(so2), "stderr": clip(se2), "exit": exit}}
 }
 
+// scaleCrash is C01's reading of a family: whatever the size, the run ends in success or in one of the three error kinds.
+func scaleCrash(c *fw.Ctx, f *scaleFam, n int, sc scaleCase) *fw.Violation {
+	s := drive.Spec{Program: sc.Prog, Selectors: sc.Sels, WantRoot: sc.RootEq != "", Budget: 400000000}
+	for _, fl := range sc.Files {
+		s.Files = append(s.Files, drive.File{Name: fl.Name, Data: fl.Text})
+	}
+	o := run(c, s)
+	c.Traces++
+	c.Transitions += o.Steps
+	c.Outcome(string(o.Kind))
+	what := ""
+	switch {
+	case o.Kind == drive.KPanic:
+		what = "implementation panicked"
+	case o.Kind == drive.KOther:
+		what = "implementation returned an error that is none of the three kinds"
+	case o.RootKind == drive.KPanic:
+		what = "producing the JSON output panicked"
+	}
+	if what == "" {
+		return nil
+	}
+	o.Ev, o.Stdout, o.RootJSON = nil, clip(o.Stdout), clip(o.RootJSON)
+	return &fw.Violation{What: fmt.Sprintf("%s, n = %d: %s", f.Name, n, what), Detail: detail{Program: clip(sc.Prog), Selectors: sc.Sels, Got: o}}
+}
+
 func scaleFamsOf(prop string) []*scaleFam {
 	var out []*scaleFam
 	for _, f := range scaleFamilies() {
-		if f.Prop == prop {
+		if f.Prop == prop || prop == "C01" {
 			out = append(out, f)
 		}
 	}
@@ -316,6 +345,10 @@ func addScale(p *fw.Prop) *fw.Prop {
 	var names []string
 	for _, f := range fams {
 		names = append(names, fmt.Sprintf("%s (n <= %d, thorough %d)", f.Name, f.QMax, f.Max))
+	}
+	if p.ID == "C01" {
+		p.Rule += fmt.Sprintf("; SCALE SWEEPS: all %d program schemas with a size parameter n that the other checks compare with closed-form results (section 2.2, E6) are run here for the same n with this property's oracle only: no panic, no error outside the three kinds", len(fams))
+		return p
 	}
 	p.Rule += "; SCALE SWEEPS: program schemas with one size parameter n and a closed-form expected output, run for EVERY n <= 72 (thorough: every n <= 1100) and for the neighbourhood of every power of two and of ten up to the family's maximum: " + strings.Join(names, "; ") + " -- stdout and outcome must equal the closed form (and the reference interpreter's result where it accepts the program)"
 	return p
